@@ -9,7 +9,7 @@ from collections import Counter
 from vlib import core, e2e
 from vlib.props.C08 import model_compare
 
-MODS = ['S4V.Props.C09', 'S4V.Props.FilterSpec', 'S4V.Props.JournalRenderSpec', 'S4V.Props.FactsJournal']
+MODS = ['S4V.Props.C09', 'S4V.Props.FilterSpec', 'S4V.Props.JournalRenderSpec', 'S4V.Props.FactsJournal', 'S4V.Props.JournalSkelSpec']
 LEVEL_NOTE = ("Proved on the model of JournalReader's iteration with the stop test, the dating source and the field cap regenerated from the source on every run: "
               "without a window every enumerated entry is printed once in journal order; the selection is always an order-preserving sublist; for journals whose receive "
               "times are non-decreasing it is exactly A <= t <= B (inclusive both ends: the exclusive end was a defect repaired by commit a1ebdbb3); the instant is "
@@ -191,7 +191,9 @@ def oracle_and_corr(ctx):
            'rule': 'shipped journals (decompressed; also re-packed into gz/xz/bz2/lz4) through `s4 --journal-output export|cat` vs `journalctl --file -o json`: entry count, cursor order, '
                    'per-entry multiset of field lines, MESSAGE text, windows exactly on / next to entry receive times (inclusive both ends); distinct = distinct window requests'}
     corr = model_compare(ctx, 'journal-select', reqs, impl)
-    return orc, [corr]
+    # the same requests through the interpreter of the enumeration skeleton regenerated from journalreader.rs / s4.rs
+    corr2 = model_compare(ctx, 'journal-select-skel', ['jskel' + r[3:] for r in reqs], impl)
+    return orc, [corr, corr2]
 
 
 def expected_cat(ref):
@@ -392,7 +394,7 @@ def oracle_many_fields(ctx):
 
 
 def check(ctx):
-    ok_gen = core.step_gen(ctx, ['Journal', 'Filter', 'JournalRender'])
+    ok_gen = core.step_gen(ctx, ['Journal', 'Filter', 'JournalRender', 'JournalSkel', 'JournalSkelMutants'])
     prove = core.step_prove(ctx, MODS) if ok_gen else {'module': ' '.join(MODS), 'obligations': 0, 'discharged': 0}
     core.step_drv(ctx) if (ok_gen or ctx.search_mode) else False
     ok_impl = core.step_build_impl(ctx)
